@@ -41,3 +41,17 @@ Example C01_nonvacuous :
                          [QerIE (IOk 1) 0 0 0 0 0 0 0; QerIE (IOk 2) 0 0 0 0 0 0 0]) [5] = Done r
             /\ o_reply (snd r) = Some (REst 9 CAUSE_OK true (Some 5) []).
 Proof. eexists; split; vm_compute; reflexivity. Qed.
+
+(* ---- histories (Model/World.v: any number of associations sharing one agent; datagrams, teardown triggers and
+   restarts in any order): no history reaches a Crash site, and after ANY history a heartbeat on the same or on
+   another association is answered - "a valid request sent afterwards is still processed normally" *)
+From UPF Require Import Model.World Proofs.WorldProofs.
+Theorem C01_no_history_crashes : forall burst es w, exists w', wrun burst w es = Done w'.
+Proof. exact wrun_done. Qed.
+Print Assumptions C01_no_history_crashes.
+
+Theorem C01_alive_after_any_history : forall burst es w w' ci connected draws,
+  wrun burst w es = Done w' ->
+  exists w'', wstep burst w' (WMsg ci connected MHeartbeat draws) = Done (w'', just RHeartbeat) /\ w_agent w'' = w_agent w'.
+Proof. exact heartbeat_after_any_history. Qed.
+Print Assumptions C01_alive_after_any_history.
